@@ -12,6 +12,7 @@ Definition unshared (s : st) (tmp : str) : Prop :=
   forall q i, q <> tmp -> names s tmp = Some (F i) -> names s q <> Some (F i).
 Definition clean (s : st) : Prop := failed s = false /\ followed s = false.
 Definition no_link_at (s : st) (p : str) : Prop := forall t, names s p <> Some (L t).
+Definition no_dir_at (s : st) (p : str) : Prop := names s p <> Some D.
 
 (* ---------- small facts ---------- *)
 Lemma upd_same : forall A (f : str -> A) p v, upd f p v p = v.
@@ -31,7 +32,7 @@ Proof. reflexivity. Qed.
 Lemma look_frame : forall s0 s q, names s q = names s0 q ->
   (forall j, names s0 q = Some (F j) -> data s j = data s0 j) -> look s q = look s0 q.
 Proof.
-  intros s0 s q Hn Hd. unfold look. rewrite Hn. destruct (names s0 q) as [[j|t]|] eqn:E; [|reflexivity|reflexivity].
+  intros s0 s q Hn Hd. unfold look. rewrite Hn. destruct (names s0 q) as [[j|t|]|] eqn:E; [|reflexivity|reflexivity|reflexivity].
   rewrite (Hd j eq_refl). reflexivity.
 Qed.
 
@@ -45,19 +46,20 @@ Proof.
 Qed.
 
 (* ---------- open(tmp, "wb") on a state where tmp is not a symlink ---------- *)
-Lemma open_facts : forall s0 tmp, wf_st s0 -> unshared s0 tmp -> clean s0 -> no_link_at s0 tmp ->
+Lemma open_facts : forall s0 tmp, wf_st s0 -> unshared s0 tmp -> clean s0 -> no_link_at s0 tmp -> no_dir_at s0 tmp ->
   exists i, let s1 := step s0 (Open tmp) in
     names s1 tmp = Some (F i) /\ (forall q, q <> tmp -> names s1 q = names s0 q) /\
     (forall j, j <> i -> data s1 j = data s0 j) /\ data s1 i = [] /\ handle s1 = Some (i, []) /\
     failed s1 = false /\ followed s1 = false /\ (forall q, q <> tmp -> names s0 q <> Some (F i)).
 Proof.
-  intros s0 tmp Hwf Hun [Hf Hfl] Hnl. unfold step. rewrite Hf.
-  destruct (names s0 tmp) as [[i|t]|] eqn:E.
+  intros s0 tmp Hwf Hun [Hf Hfl] Hnl Hnd. unfold step. rewrite Hf.
+  destruct (names s0 tmp) as [[i|t|]|] eqn:E.
   - exists i. cbn [names data handle failed followed].
     split; [exact E|]. split; [reflexivity|]. split; [intros j Hj; apply updn_other; exact Hj|].
     split; [apply updn_same|]. split; [reflexivity|]. split; [reflexivity|]. split; [exact Hfl|].
     intros q Hq. apply (Hun q i Hq). exact E.
   - exfalso. apply (Hnl t). exact E.
+  - exfalso. apply Hnd. exact E.
   - exists (next s0). cbn [names data handle failed followed].
     split; [apply upd_same|]. split; [intros q Hq; apply upd_other; exact Hq|].
     split; [intros j Hj; apply updn_other; exact Hj|].
@@ -77,18 +79,18 @@ Ltac names_neq :=
   end.
 
 Lemma core_prefix : forall s0 tmp final chunks k,
-  tmp <> final -> wf_st s0 -> unshared s0 tmp -> clean s0 -> no_link_at s0 tmp ->
+  tmp <> final -> wf_st s0 -> unshared s0 tmp -> clean s0 -> no_link_at s0 tmp -> no_dir_at s0 tmp ->
   let s := run s0 (firstn k (core_ops tmp final chunks)) in
   (look s final = look s0 final \/ look s final = VFile (concat chunks)) /\
   followed s = false /\ failed s = false /\
   (forall q, q <> tmp -> q <> final -> look s q = look s0 q) /\
   ((List.length chunks + 3 <= k)%nat -> look s final = VFile (concat chunks) /\ names s tmp = None).
 Proof.
-  intros s0 tmp final chunks k Hne Hwf Hun Hcl Hnl.
+  intros s0 tmp final chunks k Hne Hwf Hun Hcl Hnl Hnd.
   destruct k as [|k'].
   { cbn [firstn run fold_left]. destruct Hcl as [Hf Hfl]. repeat split; auto. intros; lia. intros; lia. }
   unfold core_ops. cbn [firstn]. rewrite run_cons.
-  destruct (open_facts s0 tmp Hwf Hun Hcl Hnl) as (i & Hi). cbv zeta in Hi.
+  destruct (open_facts s0 tmp Hwf Hun Hcl Hnl Hnd) as (i & Hi). cbv zeta in Hi.
   remember (step s0 (Open tmp)) as s1 eqn:Es1. clear Es1.
   destruct s1 as [n d nx h f fl]. cbn [names data handle failed followed] in Hi.
   destruct Hi as (Hnt & Hnq & Hdj & Hdi & Hh & Hf & Hfl & Hfresh). subst h f fl.
@@ -146,16 +148,16 @@ Proof.
 Qed.
 
 Lemma err_prefix : forall s0 tmp chunks k,
-  wf_st s0 -> unshared s0 tmp -> clean s0 -> no_link_at s0 tmp ->
+  wf_st s0 -> unshared s0 tmp -> clean s0 -> no_link_at s0 tmp -> no_dir_at s0 tmp ->
   let s := run s0 (firstn k (err_ops tmp chunks)) in
   (forall q, q <> tmp -> look s q = look s0 q) /\ followed s = false /\ failed s = false /\
   ((List.length chunks + 3 <= k)%nat -> names s tmp = None).
 Proof.
-  intros s0 tmp chunks k Hwf Hun Hcl Hnl.
+  intros s0 tmp chunks k Hwf Hun Hcl Hnl Hnd.
   destruct k as [|k'].
   { cbn [firstn run fold_left]. destruct Hcl as [Hf Hfl]. repeat split; auto. intros; lia. }
   unfold err_ops. cbn [firstn]. rewrite run_cons.
-  destruct (open_facts s0 tmp Hwf Hun Hcl Hnl) as (i & Hi). cbv zeta in Hi.
+  destruct (open_facts s0 tmp Hwf Hun Hcl Hnl Hnd) as (i & Hi). cbv zeta in Hi.
   remember (step s0 (Open tmp)) as s1 eqn:Es1. clear Es1.
   destruct s1 as [n d nx h f fl]. cbn [names data handle failed followed] in Hi.
   destruct Hi as (Hnt & Hnq & Hdj & Hdi & Hh & Hf & Hfl & Hfresh). subst h f fl.
@@ -182,23 +184,33 @@ Proof.
 Qed.
 
 (* ---------- `if tmp.islink(): tmp.remove()` establishes the hypothesis of the core protocol ---------- *)
-Lemma unlink_if_link_facts : forall s0 tmp, wf_st s0 -> unshared s0 tmp -> clean s0 ->
+Lemma unlink_if_link_facts : forall s0 tmp, wf_st s0 -> unshared s0 tmp -> clean s0 -> no_dir_at s0 tmp ->
   let s := step s0 (UnlinkIfLink tmp) in
-  wf_st s /\ unshared s tmp /\ clean s /\ no_link_at s tmp /\ (forall q, q <> tmp -> look s q = look s0 q).
+  wf_st s /\ unshared s tmp /\ clean s /\ no_link_at s tmp /\ no_dir_at s tmp /\
+  (forall q, q <> tmp -> look s q = look s0 q).
 Proof.
-  intros s0 tmp Hwf Hun [Hf Hfl]. unfold step. rewrite Hf.
-  destruct (names s0 tmp) as [[i|t]|] eqn:E.
-  - repeat split; auto. intros t' Ht. congruence.
-  - split; [|split; [|split; [|split]]].
+  intros s0 tmp Hwf Hun [Hf Hfl] Hnd. unfold step. rewrite Hf.
+  destruct (names s0 tmp) as [[i|t|]|] eqn:E.
+  - split; [exact Hwf|]. split; [exact Hun|]. split; [split; assumption|]. split; [intros t' Ht; congruence|].
+    split; [exact Hnd|]. reflexivity.
+  - split; [|split; [|split; [|split; [|split]]]].
     + intros p i. cbn [names next]. destruct (str_eqb p tmp) eqn:Ep.
       * apply str_eqb_eq in Ep. subst p. rewrite upd_same. discriminate.
       * unfold upd. rewrite Ep. apply Hwf.
     + intros q i Hq. cbn [names]. rewrite upd_same. discriminate.
     + split; [reflexivity|exact Hfl].
     + intros t'. cbn [names]. rewrite upd_same. discriminate.
+    + unfold no_dir_at. cbn [names]. rewrite upd_same. discriminate.
     + intros q Hq. apply look_frame; cbn [names data]; [apply upd_other; exact Hq|reflexivity].
-  - repeat split; auto. intros t' Ht. congruence.
+  - exfalso. apply Hnd. exact E.
+  - split; [exact Hwf|]. split; [exact Hun|]. split; [split; assumption|]. split; [intros t' Ht; congruence|].
+    split; [exact Hnd|]. reflexivity.
 Qed.
+
+(* the guard in front of open() is the lstat-based one.  (`if tmp.exists(): tmp.remove()` is NOT enough: see
+   exists_guard_insufficient below.) *)
+Lemma putfile_guard_is_islink : hd_error putfile_main = Some (SUnlinkIfLink Tmp).
+Proof. reflexivity. Qed.
 
 (* ---------- the translated operation lists are these protocols ---------- *)
 Lemma upload_ops_done : forall final blocks,
@@ -263,31 +275,31 @@ Qed.
 
 (* ---------- upload: atomic publication, no symlink is followed, nothing else changes ---------- *)
 Theorem upload_atomic : forall s0 final blocks k,
-  wf_st s0 -> unshared s0 (final ++ putfile_tmp_ext) -> clean s0 ->
+  wf_st s0 -> unshared s0 (final ++ putfile_tmp_ext) -> clean s0 -> no_dir_at s0 (final ++ putfile_tmp_ext) ->
   let s := run s0 (firstn k (upload_ops final blocks Done)) in
   (look s final = look s0 final \/ look s final = VFile (concat blocks)) /\
   followed s = false /\ failed s = false /\
   (forall q, q <> final ++ putfile_tmp_ext -> q <> final -> look s q = look s0 q).
 Proof.
-  intros s0 final blocks k Hwf Hun Hcl. rewrite upload_ops_done.
+  intros s0 final blocks k Hwf Hun Hcl Hnd. rewrite upload_ops_done.
   destruct k as [|k]; [cbn [firstn run fold_left]; destruct Hcl; repeat split; auto|].
   cbn [firstn]. rewrite run_cons.
-  destruct (unlink_if_link_facts s0 _ Hwf Hun Hcl) as (Hwf' & Hun' & Hcl' & Hnl' & Hlk). cbv zeta in *.
-  pose proof (core_prefix _ _ final blocks k (tmp_ext_neq final) Hwf' Hun' Hcl' Hnl') as (Ha & Hb & Hc & Hd & _).
+  destruct (unlink_if_link_facts s0 _ Hwf Hun Hcl Hnd) as (Hwf' & Hun' & Hcl' & Hnl' & Hnd' & Hlk). cbv zeta in *.
+  pose proof (core_prefix _ _ final blocks k (tmp_ext_neq final) Hwf' Hun' Hcl' Hnl' Hnd') as (Ha & Hb & Hc & Hd & _).
   cbv zeta in *. rewrite (Hlk final) in Ha by (apply not_eq_sym, tmp_ext_neq).
   split; [exact Ha|split; [exact Hb|split; [exact Hc|]]].
   intros q Hq Hq2. rewrite (Hd q Hq Hq2). apply Hlk. exact Hq.
 Qed.
 
 Theorem upload_completes : forall s0 final blocks,
-  wf_st s0 -> unshared s0 (final ++ putfile_tmp_ext) -> clean s0 ->
+  wf_st s0 -> unshared s0 (final ++ putfile_tmp_ext) -> clean s0 -> no_dir_at s0 (final ++ putfile_tmp_ext) ->
   let s := run s0 (upload_ops final blocks Done) in
   look s final = VFile (concat blocks) /\ names s (final ++ putfile_tmp_ext) = None /\ failed s = false.
 Proof.
-  intros s0 final blocks Hwf Hun Hcl. rewrite upload_ops_done. rewrite run_cons.
-  destruct (unlink_if_link_facts s0 _ Hwf Hun Hcl) as (Hwf' & Hun' & Hcl' & Hnl' & Hlk). cbv zeta in *.
+  intros s0 final blocks Hwf Hun Hcl Hnd. rewrite upload_ops_done. rewrite run_cons.
+  destruct (unlink_if_link_facts s0 _ Hwf Hun Hcl Hnd) as (Hwf' & Hun' & Hcl' & Hnl' & Hnd' & Hlk). cbv zeta in *.
   pose proof (core_prefix _ _ final blocks (List.length (core_ops (final ++ putfile_tmp_ext) final blocks))
-                (tmp_ext_neq final) Hwf' Hun' Hcl' Hnl') as (_ & _ & Hc & _ & He).
+                (tmp_ext_neq final) Hwf' Hun' Hcl' Hnl' Hnd') as (_ & _ & Hc & _ & He).
   cbv zeta in *. rewrite firstn_all in *.
   destruct He as [H1 H2]; [unfold core_ops; cbn [List.length]; rewrite app_length, map_length; cbn [List.length]; lia|].
   auto.
@@ -296,16 +308,16 @@ Qed.
 (* an upload that ends in a source error or a disconnect, and any crash during it: the final name and every other
    entry stay as they were; once the error path has run, the temporary is gone *)
 Theorem upload_interrupted : forall s0 final blocks k,
-  wf_st s0 -> unshared s0 (final ++ putfile_tmp_ext) -> clean s0 ->
+  wf_st s0 -> unshared s0 (final ++ putfile_tmp_ext) -> clean s0 -> no_dir_at s0 (final ++ putfile_tmp_ext) ->
   let s := run s0 (firstn k (upload_ops final blocks SrcError)) in
   (forall q, q <> final ++ putfile_tmp_ext -> look s q = look s0 q) /\ followed s = false /\ failed s = false /\
   ((List.length (upload_ops final blocks SrcError) <= k)%nat -> names s (final ++ putfile_tmp_ext) = None).
 Proof.
-  intros s0 final blocks k Hwf Hun Hcl. rewrite upload_ops_err.
+  intros s0 final blocks k Hwf Hun Hcl Hnd. rewrite upload_ops_err.
   destruct k as [|k]; [cbn [firstn run fold_left]; destruct Hcl; repeat split; auto; cbn [List.length]; intros; lia|].
   cbn [firstn]. rewrite run_cons.
-  destruct (unlink_if_link_facts s0 _ Hwf Hun Hcl) as (Hwf' & Hun' & Hcl' & Hnl' & Hlk). cbv zeta in *.
-  pose proof (err_prefix _ _ blocks k Hwf' Hun' Hcl' Hnl') as (Ha & Hb & Hc & Hd). cbv zeta in *.
+  destruct (unlink_if_link_facts s0 _ Hwf Hun Hcl Hnd) as (Hwf' & Hun' & Hcl' & Hnl' & Hnd' & Hlk). cbv zeta in *.
+  pose proof (err_prefix _ _ blocks k Hwf' Hun' Hcl' Hnl' Hnd') as (Ha & Hb & Hc & Hd). cbv zeta in *.
   split; [|split; [exact Hb|split; [exact Hc|]]].
   - intros q Hq. rewrite (Ha q Hq). apply Hlk. exact Hq.
   - intros Hk. apply Hd. unfold err_ops in Hk. cbn [List.length] in Hk. rewrite app_length, map_length in Hk.
@@ -316,16 +328,16 @@ Qed.
 Theorem registry_atomic : forall s0 basedir chunks k,
   let final := registry_final basedir in
   let tmp := final ++ registry_tmp_ext in
-  wf_st s0 -> unshared s0 tmp -> clean s0 -> no_link_at s0 tmp ->
+  wf_st s0 -> unshared s0 tmp -> clean s0 -> no_link_at s0 tmp -> no_dir_at s0 tmp ->
   let s := run s0 (firstn k (registry_ops basedir chunks)) in
   (look s final = look s0 final \/ look s final = VFile (concat chunks)) /\ failed s = false /\
   (forall q, q <> tmp -> q <> final -> look s q = look s0 q) /\
   ((List.length (registry_ops basedir chunks) <= k)%nat -> look s final = VFile (concat chunks) /\ names s tmp = None).
 Proof.
-  intros s0 basedir chunks k final tmp Hwf Hun Hcl Hnl.
+  intros s0 basedir chunks k final tmp Hwf Hun Hcl Hnl Hnd.
   assert (Hne : tmp <> final) by (apply ext_neq; discriminate).
   rewrite registry_ops_core. fold final. fold tmp. rewrite firstn_firstn.
-  pose proof (core_prefix s0 tmp final chunks (Nat.min k (List.length chunks + 3)) Hne Hwf Hun Hcl Hnl) as (Ha & _ & Hc & Hd & He).
+  pose proof (core_prefix s0 tmp final chunks (Nat.min k (List.length chunks + 3)) Hne Hwf Hun Hcl Hnl Hnd) as (Ha & _ & Hc & Hd & He).
   cbv zeta in *. split; [exact Ha|split; [exact Hc|split; [exact Hd|]]].
   intros Hk. apply He.
   assert (Hl : List.length (firstn (List.length chunks + 3) (core_ops tmp final chunks)) = (List.length chunks + 3)%nat).
@@ -362,9 +374,9 @@ Definition ex_base : str := [47; 115; 114; 118; 47; 117; 112].            (* "/s
 Definition ex_final : str := ex_base ++ [47; 120].                          (* "/srv/up/x" *)
 Definition ex_s0 : st := mk_st [(ex_final, F 0%nat); (ex_final ++ putfile_tmp_ext, L [47; 101; 116; 99])] [[111; 108; 100]].
 
-Example ex_hyps : wf_st ex_s0 /\ unshared ex_s0 (ex_final ++ putfile_tmp_ext) /\ clean ex_s0.
+Example ex_hyps : wf_st ex_s0 /\ unshared ex_s0 (ex_final ++ putfile_tmp_ext) /\ clean ex_s0 /\ no_dir_at ex_s0 (ex_final ++ putfile_tmp_ext).
 Proof.
-  split; [|split; [|split; reflexivity]].
+  split; [|split; [|split; [split; reflexivity|intros H; vm_compute in H; discriminate]]].
   - intros p i. unfold ex_s0, mk_st. cbn [names next find fst snd].
     destruct (str_eqb ex_final p); [intros H; injection H as <-; cbn; lia|].
     destruct (str_eqb (ex_final ++ putfile_tmp_ext) p); discriminate.
@@ -378,3 +390,18 @@ Example ex_runs :
   putfile [47] ex_base [120] [[97]; [98]] Done = Some (upload_ops ex_final [[97]; [98]] Done) /\
   putfile [47] ex_base [] [[97]] Done = None.
 Proof. vm_compute. repeat split. Qed.
+
+(* why the guard has to be islink(): with `if tmp.exists(): tmp.remove()` a DANGLING symlink at the temporary name
+   survives the guard (stat follows it and finds nothing) and open() then creates the file THROUGH it *)
+Definition ex_dangling : st := mk_st [(ex_final ++ putfile_tmp_ext, L [47; 101; 116; 99; 47; 110; 101; 119])] [].   (* -> "/etc/new" *)
+Theorem exists_guard_insufficient :
+  let tmp := ex_final ++ putfile_tmp_ext in
+  wf_st ex_dangling /\ unshared ex_dangling tmp /\ clean ex_dangling /\ no_dir_at ex_dangling tmp /\
+  followed (run ex_dangling [UnlinkIfExists tmp; Open tmp]) = true /\
+  followed (run ex_dangling [UnlinkIfLink tmp; Open tmp]) = false.
+Proof.
+  cbv zeta. split; [|split; [|split; [split; reflexivity|split; [intros H; vm_compute in H; discriminate|split; vm_compute; reflexivity]]]].
+  - intros p i H. unfold ex_dangling, mk_st in H. cbn [names find fst snd] in H.
+    destruct (str_eqb (ex_final ++ putfile_tmp_ext) p); discriminate.
+  - intros q i _ H. vm_compute in H. discriminate.
+Qed.
